@@ -119,8 +119,18 @@ class TypeInfo:
             extras, force=True, bound=bound)
 
     def v(self):
-        return (f'{self.prefix}{self.i}' if (idx := self.index) is None
-                else f'{self.prefix}{self.i}[{idx}]')
+        if (idx := self.index) is None:
+            return f'{self.prefix}{self.i}'
+        if idx.__class__ is tuple:  # nested indexes, e.g. `v1[0][1]`
+            return f'{self.prefix}{self.i}' + ''.join([f'[{k}]' for k in idx])
+        return f'{self.prefix}{self.i}[{idx}]'
+
+    def index_into(self, k):
+        # Index of element `k` of the value referred to by `self.v()`: keep
+        # the parent index (if any), so `v1[0]` indexed by 1 is `v1[0][1]`.
+        if (idx := self.index) is None:
+            return k
+        return (*idx, k) if idx.__class__ is tuple else (idx, k)
 
     def v_and_next(self):
         next_i = self.i + 1
